@@ -328,6 +328,87 @@ func rulesC04(w *World, r *Report) {
 
 	r.Rule("C04.R4", "derives-from: findBestArchive receives the caller's unclamped from and now; the selected archive r = list[id] provides the retention for clamping, the step and the interval alignment; from is clamped up to now-retention and until down to now; bounds are r.interval(clamped) with until extended by one step exactly when they coincide", 5)
 	ruleOneClockReading(w, r, "C04.R4", "Whisper.Fetch", "Whisper.FetchFromArchive")
+	ruleAddSaturates(w, r, "C04.R4")
+	// a fetch fails for its arguments, or because reading the file failed — never for what a slot holds: the functions
+	// FetchFromArchive calls in package whispertool create no errors of their own (they pass on what the page buffer
+	// and the decoders report)
+	{
+		var scope []*ssa.Function
+		for g := range moduleReachable(w, []*ssa.Function{f}, nil) {
+			if g == f || pkgOf(g) != w.Lib || g.Name() == "TakeFrom" || strings.HasSuffix(g.Name(), "Error") {
+				continue
+			}
+			scope = append(scope, g)
+		}
+		sort.Slice(scope, func(i, j int) bool { return funcName(scope[i]) < funcName(scope[j]) })
+		bad := ""
+		for _, g := range scope {
+			idx := errResultIndex(g)
+			if idx < 0 {
+				continue
+			}
+			for _, ret := range returnsOf(g) {
+				vals, _ := resultValues(ret, idx)
+				for _, v := range vals {
+					if classifyErr(v).class == errFresh && bad == "" {
+						bad = funcName(g) + " creates an error at " + w.instrPos(ret)
+					}
+				}
+			}
+		}
+		r.Check(bad == "", "C04.R4", "FetchFromArchive:fails-for-arguments-only", w.pos(f.Pos()), fmt.Sprintf("%d functions below FetchFromArchive create no error of their own", len(scope)), bad+": whether a fetch of a valid window succeeds then depends on what is stored in the archive")
+	}
+	// both ends of the window are clamped independently: every path to a returned series has passed the test of from
+	// against the oldest retained instant and the test of until against the clock (a window reaching over both edges
+	// is cut at both)
+	{
+		var fromTest, untilTest ssa.Instruction
+		for _, b := range f.Blocks {
+			if len(b.Instrs) == 0 {
+				continue
+			}
+			iff, ok := b.Instrs[len(b.Instrs)-1].(*ssa.If)
+			if !ok {
+				continue
+			}
+			e := newExprCtx(w).expr(iff.Cond)
+			// the clamping tests lead to an assignment, the refusing ones (from > now, until < oldest) to `return nil`
+			leadsToNil := false
+			for _, sc := range b.Succs {
+				for _, in := range sc.Instrs {
+					if rt, isRet := in.(*ssa.Return); isRet && len(rt.Results) == 2 && isNilConst(rt.Results[0]) && isNilConst(rt.Results[1]) {
+						leadsToNil = true
+					}
+				}
+			}
+			if leadsToNil {
+				continue
+			}
+			switch {
+			case regexp.MustCompile(`^\(p2 < .*Add\(.*\)\)$`).MatchString(e) || regexp.MustCompile(`^\(p2 < i\d+\)$`).MatchString(e):
+				fromTest = iff
+			case regexp.MustCompile(`^\(.* < p3\)$`).MatchString(e) && !strings.Contains(e, "p2"):
+				untilTest = iff
+			}
+		}
+		bad := ""
+		series := func(ret *ssa.Return) bool { return len(ret.Results) == 2 && !isNilConst(ret.Results[0]) }
+		for _, t := range []struct {
+			in   ssa.Instruction
+			what string
+		}{{fromTest, "from against the oldest retained instant"}, {untilTest, "until against the clock"}} {
+			if t.in == nil {
+				if bad == "" {
+					bad = "the clamping test of " + t.what + " was not found"
+				}
+				continue
+			}
+			if ret := pathAvoidingTo(f.Blocks[0], func(in ssa.Instruction) bool { return in == t.in }, series); ret != nil && bad == "" {
+				bad = "a series is returned (" + w.instrPos(ret) + ") on a path that never tests " + t.what
+			}
+		}
+		r.Check(bad == "", "C04.R4", "FetchFromArchive:clamps-both-ends", w.pos(f.Pos()), "every returned series has passed both clamping tests", "FetchFromArchive: "+bad+": a window reaching before the retention and past the clock keeps one end unclamped, so the series covers more slots than the archive has")
+	}
 	for _, c := range callsTo(f, fn(w.Lib, "Whisper.findBestArchive")) {
 		es := callArgExprs(w, c)
 		r.Check(es[1] == "p2", "C04.R4", "FetchFromArchive:best-archive-from", w.instrPos(c), "best archive chosen from the unclamped from", "findBestArchive is called with "+es[1]+" instead of the requested from")
